@@ -1,6 +1,7 @@
 """Builds /verif/seeded/<id>/ from the sub-agents' deliveries (/tmp/seed_out) and my verification results.
 
-  python -m vf.seedarchive /tmp/seed_results_final.jsonl
+  python -m vf.seedarchive /tmp/seed_results_final.jsonl [delivery dir, default /tmp/seed_out] [id offset, default 0]
+Round 1 is archived as <pid>-1/-2, round 2 (offset 2) as <pid>-3/-4, round 3 (offset 4) as <pid>-5/-6.
 Each line of the results file: {"id": "C07", "k": "1", "verify": {...}, "checks": {"C07": {"rc": 1, "first": [...]}}, "note": "..."}"""
 from __future__ import annotations
 
@@ -12,21 +13,25 @@ from pathlib import Path
 VERIF = Path(__file__).resolve().parent.parent
 
 
-def main(results_file: str):
+def main(results_file: str, delivery: str = "/tmp/seed_out", offset: int = 0):
     latest = {}
     for l in Path(results_file).read_text().splitlines():
         r = json.loads(l)
         latest[(r["id"], r["k"])] = r
+    notes_file = VERIF / "seeded" / "NOTES.json"
+    notes = json.loads(notes_file.read_text())["notes"] if notes_file.exists() else {}
     rows = []
     for (pid, k), r in sorted(latest.items()):
-        src = Path("/tmp/seed_out") / pid
+        src = Path(delivery) / pid
         if not r.get("verify", {}).get("ok"):
             continue
-        sid = f"{pid}-{k}"
+        sid = f"{pid}-{int(k) + offset}"
         d = VERIF / "seeded" / sid
         d.mkdir(parents=True, exist_ok=True)
         shutil.copy(src / f"patch{k}.diff", d / "patch.diff")
         shutil.copy(src / f"demo{k}.py", d / "demo.py")
+        if (src / f"patch{k}.orig_before_rebase.diff").exists():
+            shutil.copy(src / f"patch{k}.orig_before_rebase.diff", d / "patch.orig_before_rebase.diff")
         meta = json.loads((src / f"meta{k}.json").read_text()) if (src / f"meta{k}.json").exists() else {}
         caught = {c: v for c, v in (r.get("checks") or {}).items()}
         meta_out = {
@@ -35,21 +40,22 @@ def main(results_file: str):
             "summary": meta.get("summary"),
             "needs_to_manifest": meta.get("needs_to_manifest"),
             "how_demonstrated": meta.get("how_demonstrated"),
+            "round": offset // 2 + 1,
             "what_i_ran": [
                 "scratch worktree: git apply patch.diff; full test suite -> " + str(r["verify"].get("tests")),
                 f"demo.py on the unchanged tree -> exit {r['verify'].get('demo_unchanged_rc')}; with the patch -> exit {r['verify'].get('demo_changed_rc')}",
-                "git -C /repo apply patch.diff; ./check <id> --tier quick; git -C /repo checkout -- .",
+                "git -C /repo apply patch.diff; ./check <id> --tier quick (for each check listed under checks_run); git -C /repo checkout -- .",
             ],
             "checks_run": {c: {"exit": v["rc"], "first_report": (v["first"][1] if len(v["first"]) > 1 else (v["first"][0] if v["first"] else ""))[:500]} for c, v in caught.items()},
             "caught_by": sorted(c for c, v in caught.items() if v["rc"] == 1),
-            "note": r.get("note", ""),
+            "note": notes.get(sid, r.get("note", "")),
         }
         (d / "meta.json").write_text(json.dumps(meta_out, indent=1) + "\n")
-        rows.append((sid, pid, (meta.get("summary") or "")[:110], ", ".join(meta_out["caught_by"]) or "MISSED", r.get("note", "")))
+        rows.append((sid, pid, (meta.get("summary") or "")[:110], ", ".join(meta_out["caught_by"]) or "MISSED", meta_out["note"]))
     print("| seeded | property | change | caught by (quick tier) | note |\n|---|---|---|---|---|")
     for row in rows:
         print("| " + " | ".join(str(x).replace("|", "/").replace("\n", " ") for x in row) + " |")
 
 
 if __name__ == "__main__":
-    main(sys.argv[1])
+    main(sys.argv[1], *(sys.argv[2:3]), *(int(a) for a in sys.argv[3:4]))
